@@ -17,6 +17,7 @@ import (
 	"os"
 	"os/exec"
 	"path/filepath"
+	"regexp"
 	"runtime"
 	"sort"
 	"strings"
@@ -416,7 +417,7 @@ func reachProbes(c *Case, o *Outcome, st *runStats) {
 // violation no longer occurs, the case is an instance of that finding.
 func classifyCounterfactual(c *Case, v *Violation) string {
 	if *fCF == "" {
-		return ""
+		return classifyStructural(c, v)
 	}
 	simrt.SetCounterfactual(true)
 	defer simrt.SetCounterfactual(false)
@@ -427,6 +428,61 @@ func classifyCounterfactual(c *Case, v *Violation) string {
 		}
 	}
 	return *fCF
+}
+
+var tmplCallRe = regexp.MustCompile(`\{\{-?\s*template\s+"([^"]+)"`)
+
+// classifyStructural is the fallback used only when the counterfactual switch
+// for F6 cannot be compiled into the tree under test (mangle no longer has the
+// expected shape): a violating case of one of F6's classes is taken for an
+// instance if some helper is called from two sites inside attribute values
+// (or inside different elements) whose static context text differs - the shape
+// every F6 instance has.  Looser than the counterfactual, hence only a fallback.
+func classifyStructural(c *Case, v *Violation) string {
+	switch v.Class {
+	case "history-dependent", "sticky-broken", "wrote-on-failure", "body-ran-on-failure":
+	default:
+		return ""
+	}
+	sites := map[string]map[string]bool{}
+	scan := func(text string) {
+		for _, m := range tmplCallRe.FindAllStringSubmatchIndex(text, -1) {
+			name := text[m[2]:m[3]]
+			start := m[0] - 48
+			if start < 0 {
+				start = 0
+			}
+			ctx := text[start:m[0]]
+			if i := strings.LastIndex(ctx, "<"); i >= 0 {
+				ctx = ctx[i:]
+			}
+			if j := strings.LastIndex(ctx, "}}"); j >= 0 && !strings.ContainsAny(ctx[j:], "<=") {
+				ctx = ctx[:0]
+			}
+			if sites[name] == nil {
+				sites[name] = map[string]bool{}
+			}
+			sites[name][ctx] = true
+		}
+	}
+	for _, op := range c.allOps() {
+		scan(op.Text)
+	}
+	for _, t := range c.Disk {
+		scan(t)
+	}
+	for _, set := range sites {
+		inAttr := 0
+		for ctx := range set {
+			if strings.ContainsAny(ctx, "=") || strings.HasPrefix(ctx, "<") {
+				inAttr++
+			}
+		}
+		if len(set) >= 2 && inAttr >= 1 {
+			return "F6"
+		}
+	}
+	return ""
 }
 
 // warmUp fills the lazily initialised caches of fmt, reflect, regexp and
